@@ -26,7 +26,7 @@ EXPLANATION = (
     "constructed by the runners is non-strict; (R3) no processor method is called anywhere outside the dispatcher; (R4) code guarded by the "
     "'active' flag in the supersteps and the run-start/run-end helpers only constructs and emits events — it performs no state write and no "
     "control transfer; (R5) top-level shutdown is reached from a finally block; (R6) the dispatcher iterates its own copy of the processor list and no "
-    "method other than the constructor modifies it, so a failing processor cannot make another one miss events."
+    "method other than the constructor modifies it, so a failing processor cannot make another one miss events. R1 also requires that an async processor method is awaited where it is called, inside its own guard (a coroutine collected for a later gather runs outside the guard and abandons its siblings when one fails)."
 )
 NOT_DECIDED = (
     "That a processor which mutates objects reachable from an event (e.g. a list-valued decision) cannot influence the run; timing effects of slow "
